@@ -166,9 +166,26 @@ def same_set(cond: Cond, op, parts):
     return a == b
 
 
-def both_polarities(facts):
+def both_polarities(facts, _propagate=True):
     """every decided fact in both spellings: (c, v) and (not c, not v) - `if not all(x > 0)` and `if any(x <= 0)` are the
     same guard, whichever way the source writes it"""
+    facts = list(facts)
+    if _propagate:
+        # unit propagation: a true disjunction all of whose other disjuncts are false on this path makes the remaining
+        # one true (`if A or B: if A: ... else: <B holds here>`); dually for a false conjunction
+        known = {}
+        for c, v in both_polarities(facts, _propagate=False):
+            known.setdefault(c.key, v)
+        extra = []
+        for c, v in facts:
+            for c2, v2 in ((c, v), (c.neg(), not v)):
+                if (c2.t[0] == "or" and v2 is True) or (c2.t[0] == "and" and v2 is False):
+                    parts = flatten(c2, c2.t[0])
+                    unknown = [q for q in parts if q.key not in known]
+                    others = [q for q in parts if q.key in known]
+                    if len(unknown) == 1 and all(known[q.key] is (not v2) for q in others):
+                        extra.append((unknown[0], v2))
+        facts = facts + extra
     for c, v in facts:
         yield c, v
         n = c.neg()
@@ -178,7 +195,7 @@ def both_polarities(facts):
         # conjunction every conjunct true (`if not A or B: raise` passed means A and not B)
         for c2, v2 in ((c, v), (n, not v)):
             if (c2.t[0] == "or" and v2 is False) or (c2.t[0] == "and" and v2 is True):
-                yield from both_polarities([(part, v2) for part in flatten(c2, c2.t[0])])
+                yield from both_polarities([(part, v2) for part in flatten(c2, c2.t[0])], _propagate=False)
 
 
 def fired(path: Path, pred):
